@@ -41,6 +41,18 @@ CHECKS.update({
         "Trusted: SQLite; the dict model. Re-creating an existing id and default `name` are unspecified and not compared.",
         "DESIGN.md 4 C05",
     ),
+    "C08": (
+        "bounded-exhaustive enumeration of event pairs and ordered event lists on a time lattice, integer hull-rule reference and left fold",
+        "heartbeat_merge is compared with the if-and-only-if hull rule on the full product of starts x durations (negative, zero, positive) x data equality x pulsetimes (0, fractional, integral) at 1 s and 1 ms; heartbeat_reduce is compared with the left fold of the reference rule on every ordered sequence of <=4 lattice events (32-value alphabet), plus normal-form, idempotence and coverage checks. Complete per order type of endpoints for the stated lengths.",
+        "Trusted: the 10-line integer reference rule. Lists longer than the bound and non-lattice instants are not explored (the functions only compare and add instants).",
+        "DESIGN.md 3.4, 4 C08",
+    ),
+    "C10": (
+        "bounded-exhaustive enumeration of non-overlapping event sequences x labels x pulsetimes x input orders, unit-cell oracle",
+        "flood is run on every sequence of <=3 (lattice 0..9) and 4 (0..6) non-overlapping events with distinct starts, every 2-label assignment, pulsetimes below/at/above the gaps (incl. fractional at 1 ms) and every input permutation; outputs must be positive-length, non-overlapping, cover all input cells per label, close exactly the gaps <= pulsetime and leave the input untouched.",
+        "Trusted: the cell oracle (40 lines). 'Non-overlapping' is read as no negative gap between consecutive events.",
+        "DESIGN.md 3.4, 4 C10",
+    ),
 })
 
 NOT_YET = {}
